@@ -870,3 +870,26 @@ func maxi(a, b int) int {
 }
 
 var _ = bits.Len64
+
+// String prints t as a self-contained SMT-LIB2 expression (no sharing).
+func String(t *Term) string {
+	switch t.Op {
+	case OConst:
+		return constStr(t)
+	case OVar:
+		return t.Name
+	case OExtract:
+		return "((_ extract " + strconv.Itoa(int(t.Val>>8)) + " " + strconv.Itoa(int(t.Val&0xff)) + ") " + String(t.Args[0]) + ")"
+	case OZExt:
+		return "((_ zero_extend " + strconv.Itoa(t.W-t.Args[0].W) + ") " + String(t.Args[0]) + ")"
+	case OSExt:
+		return "((_ sign_extend " + strconv.Itoa(t.W-t.Args[0].W) + ") " + String(t.Args[0]) + ")"
+	}
+	var sb strings.Builder
+	sb.WriteString("(" + opNames[t.Op])
+	for _, a := range t.Args {
+		sb.WriteString(" " + String(a))
+	}
+	sb.WriteString(")")
+	return sb.String()
+}
